@@ -86,23 +86,7 @@ CLAIMED = {
              "method); the filter purity claim is by correspondence sweep only, not a theorem.",
         design_ref="§5 C19",
     ),
-    "C17": dict(
-        category="proof",
-        technique="Lean 4 proofs over sandbox decision functions regenerated from sandbox.py by a Python-ast translator "
-                  "+ adversarial access-route probes with tracer objects + structural validation of generated code",
-        text="Theorems (Props/C17.lean over Gen/Sandbox.lean): for every object and attribute name, what "
-             "is_safe_attribute admits neither starts with an underscore nor is internal (safe_attr_decision, also for "
-             "the immutable subclass); every dunder name is internal on every object; the documented internal "
-             "attributes (mro, gi_*, cr_*, ag_*, everything on code/frame/traceback) are internal. Tie: translated "
-             "functions cross-run against the real ones; 23 access routes (dot, subscript, |attr, map/sort/join/sum/"
-             "groupby/unique/min/selectattr attribute arguments, six format/format_map/Markup.format forms incl. stored "
-             "methods, loops, macro arguments) x probe objects (private instance/class/property/method attributes, "
-             "__getattr__ proxy, nested objects, 16 special objects) x 4 sandbox configurations, with the generated "
-             "code of every program checked structurally (no attribute/subscript/call on l_N_* values).",
-        note="Trusted: Lean kernel; translator; that each route consults the decision function is shown per program "
-             "(translation validation + probes), not by a theorem about compiler.py/filters.py.",
-        design_ref="§5 C17",
-    ),
+    # C17: the claim lives in harness/props/c17.py (CLAIM)
     "C18": dict(
         category="proof",
         technique="Lean 4 proofs over is_safe_callable and the guard shape of SandboxedEnvironment.call regenerated from "
